@@ -14,6 +14,7 @@ import (
 	"sync"
 
 	"github.com/pdfcpu/pdfcpu/pkg/api"
+	"github.com/pdfcpu/pdfcpu/pkg/pdfcpu/model"
 	"verif/harness/lib/h"
 	"verif/harness/lib/proj"
 	"verif/harness/lib/rawpdf"
@@ -94,6 +95,15 @@ func wmKey(c wmCase, upto int) string {
 	return sb.String()
 }
 
+// wconf: default configuration for single-step cases and first steps with a selection, classic xref / no object streams otherwise
+// (much less deflate work; both writer paths see watermarks).
+func wconf(step int, c wmCase) *model.Configuration {
+	if (step+len(c.Ops)+len(c.Ops[0].Sel))%3 == 0 {
+		return nil
+	}
+	return plainConf()
+}
+
 func wmRun(dir string, c wmCase, fail func(step int, key, what string, got any)) {
 	pageKey := func(kind string, step, p int) string { return kind + "|" + wmClass(c, step, p) }
 	ps := make([]rawpdf.PageSpec, c.NP)
@@ -117,17 +127,17 @@ func wmRun(dir string, c wmCase, fail func(step int, key, what string, got any))
 		var err error
 		switch {
 		case o.Op == "add" && o.Kind == "text":
-			err = api.AddTextWatermarksFile(cur, next, o.Sel, o.OnTop, fmt.Sprintf("Draft %d", i), o.Desc, nil)
+			err = api.AddTextWatermarksFile(cur, next, o.Sel, o.OnTop, fmt.Sprintf("Draft %d", i), o.Desc, wconf(i, c))
 		case o.Op == "add" && o.Kind == "image":
 			img := "pkg/testdata/resources/github.png"
 			if i == 0 && len(o.Sel) == 0 {
 				img = "pkg/testdata/resources/logoSmall.png"
 			}
-			err = api.AddImageWatermarksFile(cur, next, o.Sel, o.OnTop, repoPath(img), o.Desc, nil)
+			err = api.AddImageWatermarksFile(cur, next, o.Sel, o.OnTop, repoPath(img), o.Desc, wconf(i, c))
 		case o.Op == "add" && o.Kind == "pdf":
-			err = api.AddPDFWatermarksFile(cur, next, o.Sel, o.OnTop, repoPath("pkg/testdata/test.pdf")+":1", o.Desc, nil)
+			err = api.AddPDFWatermarksFile(cur, next, o.Sel, o.OnTop, repoPath("pkg/testdata/test.pdf")+":1", o.Desc, wconf(i, c))
 		case o.Op == "remove":
-			err = api.RemoveWatermarksFile(cur, next, o.Sel, nil)
+			err = api.RemoveWatermarksFile(cur, next, o.Sel, wconf(i, c))
 		default:
 			h.Die("unknown op %s", o.Op)
 		}
